@@ -144,6 +144,10 @@ pub trait Prop: Sync {
     fn hang_is_violation(&self) -> bool {
         false
     }
+    /// evidence level (must equal MANIFEST level_claimed.category)
+    fn level(&self) -> &'static str {
+        "exploration"
+    }
     /// class labels that must occur at least once per run (generator health)
     fn required_classes(&self, _tier: Tier) -> Vec<&'static str> {
         vec![]
